@@ -194,10 +194,14 @@ class Engine:
         seen_known = {}
         unconfirmed = 0
         reported = 0
+        not_examined = 0
         for k, (v, cnt) in sorted(self.viols.items(), key=lambda kv: kv[0]):
             f = findings.match(known, v)
             if f is not None:
                 seen_known.setdefault(f["id"], [f, 0])[1] += cnt
+                continue
+            if reported >= 12:   # enough replayable alarms; further distinct signatures are only counted
+                not_examined += 1
                 continue
             # confirm in fresh subprocesses, twice ("the same schedule must fail every time")
             ok = True
@@ -207,7 +211,7 @@ class Engine:
                 unconfirmed += cnt
                 continue
             n_viol += 1
-            if reported < 12:
+            if True:
                 path = self._write_replay(v, cnt)
                 lines.append(f"VIOLATION property={self.prop} replay={path}")
                 lines.append(f"  kind={v.kind} sig={json.dumps(v.sig, sort_keys=True)} count={cnt}")
@@ -223,6 +227,7 @@ class Engine:
         cov["distinct_outcomes"] = dict(sorted(self.outcomes.items()))
         cov["known_findings_seen"] = {fid: cnt for fid, (f, cnt) in seen_known.items()}
         cov["unconfirmed_inprocess"] = unconfirmed
+        cov["further_violation_signatures_not_examined"] = not_examined
         cov["caps_hit"] = self.caps
         cov["workers"] = self.workers
         cov.update(self.notes)
